@@ -203,6 +203,21 @@ def run(rep, tier, seed, tr_errors):
             outside = [(lf < c - wd / 2 or lf > c + wd / 2) for lf in log_f]
             if np.any(wts < 0) or np.any(wts > 1) or any(o and wv != 0 for o, wv in zip(outside, wts)) or np.any(np.isnan(wts)):
                 bad.append((dict(window=win, center=c, width=wd), "weights outside [0,1], not zero outside the window, or nan"))
+            # the same window on a second grid with the same number of points, in the same process: the weights belong to the grid
+            # they were asked for (no state may survive between calls), and asking again for the first grid gives the first answer
+            log_f2 = log_f - 3.0
+            try:
+                with warnings.catch_warnings():
+                    warnings.simplefilter("ignore")
+                    wts2 = _generate_weights(log_f2, win, c, wd)
+                    wts1b = _generate_weights(log_f, win, c, wd)
+            except Exception as e:  # noqa
+                bad.append((dict(window=win, center=c, width=wd, second_grid=True), "raised %s: %s" % (type(e).__name__, str(e)[:100])))
+                continue
+            rep.evaluations += 2
+            outside2 = [(lf < c - wd / 2 or lf > c + wd / 2) for lf in log_f2]
+            if any(o and wv != 0 for o, wv in zip(outside2, wts2)) or not np.array_equal(wts1b, wts):
+                bad.append((dict(window=win, center=c, width=wd, second_grid=True), "weights for a second grid of the same length are not zero outside the window / repeating the first call gives different weights"))
     rep.extra["runs"] = stats
     rep.samples = [{"families": list(fams)}, {"pairs": pairs[:2]}]
     rep.oblige("zhit-runs: exact on constant-phase elements, few percent on ladders, scaling, zero weights, smoothing, weights", not bad, "%s; %d failures" % (stats, len(bad)))
